@@ -143,6 +143,12 @@ pub fn run(id: &str) -> i32 {
             });
             rx.recv_timeout(std::time::Duration::from_secs(2)).is_err()
         }
+        // KF20: Curve::from_arrival_bound of a (super-additive) Curve, cut after 2 jobs, is smaller than its source beyond the cut
+        "KF20" => {
+            let src = Curve::new(vec![d(2), d(6), d(9)]);
+            let cu = Curve::from_arrival_bound(&src, 2);
+            cu.number_arrivals(d(12)) < src.number_arrivals(d(12))
+        }
         _ => { eprintln!("unknown witness {}", id); return 2; }
     };
     println!("{} {}", id, if reproduces { "reproduces" } else { "does not reproduce" });
